@@ -97,7 +97,7 @@ def run(ctx):
         report.cov["evaluations"] += 1
         if not r["ok"]:
             viol.append({"kind": "corpus", "case": name, "detail": r["detail"]})
-    n = 120 if ctx["tier"] == "quick" else 3000
+    n = 120 * nv.boost("engine") if ctx["tier"] == "quick" else 3000
     cases, meta, init_reqs = [], [], []
     problems = []
     for _ in range(n):
